@@ -27,6 +27,9 @@
 // to the end, b/c Each whose callback returns false at the first/second token, x/y Each whose
 // callback PANICS at the first/second token (recovered by the harness; the scanner is used on)
 // (a|b|c|x|y<hexlist of the tokens passed to the callback>:<hex text>:<complete>).
+// Round 6: p<k> Rest of which only the first k bytes are read (p<hex of the bytes read>), q<k> k more
+// bytes from the reader the last Rest returned (q<hex>; q- when no Rest came before or a Reset came
+// since), t Text and Complete with no call in between (t<hex text>:<complete>).
 // The strings returned by Text and passed to Each's callback are kept and read at the end of the
 // session.
 //
@@ -348,19 +351,47 @@ func runSession(sc *shell.Scanner, ops string, obs *[]held, reset func()) {
 		}()
 		*obs = append(*obs, held{pre: tag, toks: toks, hasToks: true, txt: sc.Text(), hasTxt: true, post: ":" + tr.B(sc.Complete())})
 	}
-	for _, op := range ops {
+	// round 6 (round6.go): the reader handed out by the last Rest, for the ops that read only part of it
+	var restReader io.Reader
+	readSome := func(k int) string {
+		buf := make([]byte, k)
+		n, _ := io.ReadFull(restReader, buf) // stops at k bytes or at the end of the reader
+		return string(buf[:n])
+	}
+	for i := 0; i < len(ops); i++ {
+		op := ops[i]
+		count := 0 // p<k>, q<k>: the decimal digits that follow the letter
+		if op == 'p' || op == 'q' {
+			for i+1 < len(ops) && ops[i+1] >= '0' && ops[i+1] <= '9' {
+				i++
+				count = min(count*10+int(ops[i]-'0'), 1<<24)
+			}
+		}
 		switch op {
 		case 'n':
 			ok := sc.Next()
 			*obs = append(*obs, held{pre: "n" + tr.B(ok) + ":", txt: sc.Text(), hasTxt: true, post: ":" + tr.B(sc.Complete())})
 		case 'r':
-			rest, _ := io.ReadAll(sc.Rest())
+			restReader = sc.Rest()
+			rest, _ := io.ReadAll(restReader)
 			*obs = append(*obs, held{pre: "r", txt: string(rest), hasTxt: true})
+		case 'p': // Rest, and only the first <count> bytes are read from the reader it returns
+			restReader = sc.Rest()
+			*obs = append(*obs, held{pre: "p", txt: readSome(count), hasTxt: true})
+		case 'q': // <count> more bytes from the reader the last Rest returned (nothing when there is none)
+			if restReader == nil {
+				*obs = append(*obs, held{pre: "q-"})
+			} else {
+				*obs = append(*obs, held{pre: "q", txt: readSome(count), hasTxt: true})
+			}
+		case 't': // Text and Complete, no call in between
+			*obs = append(*obs, held{pre: "t", txt: sc.Text(), hasTxt: true, post: ":" + tr.B(sc.Complete())})
 		case 'e':
 			*obs = append(*obs, held{pre: errCode(sc.Err())})
 		case 'z':
 			if reset != nil {
 				reset()
+				restReader = nil // the scanner's buffer now reads the new input: the old reader is not used on
 				*obs = append(*obs, held{pre: "z"})
 			}
 		case 's':
@@ -497,7 +528,7 @@ func bigToken(r *tr.Rand, n int) string {
 func special(s string) bool { return strings.ContainsAny(s, " \t\n\\'\"|&;<>()$`*?[#~=%") }
 
 func main() {
-	tr.Main("C15: every single byte, all strings to length 3 (quick) / 4 (thorough) over a 28-symbol metacharacter alphabet for Quote and Split(Join), random lists of random strings, Unicode white space, hold cases (every result of a series of Quote/Join calls is read only after the last call, some after a GC), concurrent workers that read their results a window of calls later; C16: every byte value alone, inside a word and inside each kind of quoting, all strings to length 3 (quick) / 4 (thorough) over a 10-symbol alphabet with both blanks, NUL and a non-ASCII byte, all strings over the six tokenizer classes to length 6 (quick) / 8 (thorough) for Split, every Unicode white-space code point as UTF-8, scanner sessions under eleven reader fragmentations (fixed and random chunks, a last chunk delivered together with io.EOF, empty reads) with Rest after every number of Next calls under every fragmentation, Err/Reset/Scanner.Split/Each sessions, random long inputs, inputs and single tokens longer than bufio's buffer. Both: scale streams (scale.go) -- lengths, run lengths, element counts and reader chunk sizes 2^k-1, 2^k, 2^k+1 for k = 6..13 and beyond 2*4096, smallest first; C15: plain filler plus ONE special character class (each of the 22 bytes Quote protects, alone or with a single quote) at the end, start, around the leading power-of-two block, everywhere, sparse, alternating, through Quote, Join, Split(Join) and hold cases, lists of 2^k short elements; C16: 34 kinds of runs (bare / single- / double-quoted text, quoted blanks, escape runs, quotes and escapes opening exactly at the boundary, unterminated runs, continuation runs, separator runs of one class, many short tokens) through Split and through scanner sessions (Rest right after and right before the long token, full scan with Err, Scanner.Split, Each) under chunk sizes tied to the run length with the e and z flags. Round 4 (round4.go): K lines = histories of Quote / Join / Split(Join) / Split calls in ONE process with every result read after the last call -- exhaustive two-call histories over small near-equal (C15) or malformed (C16: all strings to length 2 over the six classes) strings, the equal-length collision pairs of corpus/common/hash-collisions.tsv (FNV-1a, FNV-1, CRC-32, 31-polynomial, djb2, Adler-32) quoted, joined and split one right after the other in both orders, with a third string in between, bare and with a common suffix that makes them need quotation, random histories over near-equal strings (one byte changed, two swapped, reversed, one more or less), a 300..4097-byte (thorough 8193) call before and between ordinary ones; every length 1..300 (thorough 600): C15 filler plus one special character of each of the 22 classes (last and one rotating position, with a single quote), element counts and joined lengths; C16 a token holding exactly L bytes (bare, double-quoted, single-quoted, half bare and half quoted) when each of 44 kinds of event arrives (the two-byte append after a backslash inside double quotes, escapes, continuations, quotes opening or closing, separators, end of input), with more bytes of the same token after it, through Split and a session under a rotating fragmentation, and seven of the events at every source offset 0..300; Each whose callback panics (recovered) at the first / second token, the scanner used on; Round 5 (round5.go, C16): M lines = ONE scanner on two inputs - NewScanner over the first, a session, Reset onto the second, Text / Complete / Err right after the Reset, a session from the whole op set - for every pair of 17 reader kinds (strings.Reader, bytes.Reader, bytes.Buffer, bufio.Reader of three sizes, a one-byte ByteReader, a reader returning data with io.EOF, MultiReader, LimitReader, seven fragmentations) at 42 points of a first session (before any Next, between tokens, past the end, after Rest, after Scanner.Split, after Each to the end / stopped / panicked, inside an unterminated quotation), after NewScanner(nil), after a reader that fails after k bytes, with inputs longer than one and two bufio buffers, and random combinations: the second session must be that of a fresh scanner on the second input; inside every Each callback Text() must be the token passed to it; 2-, 3- and 4-byte UTF-8 sequences, truncated, overlong and surrogate forms at the ends and in the middle of filler. A case is non-trivial when its input contains a quoting character, separator or metacharacter; distinct = distinct input lines.",
+	tr.Main("C15: every single byte, all strings to length 3 (quick) / 4 (thorough) over a 28-symbol metacharacter alphabet for Quote and Split(Join), random lists of random strings, Unicode white space, hold cases (every result of a series of Quote/Join calls is read only after the last call, some after a GC), concurrent workers that read their results a window of calls later; C16: every byte value alone, inside a word and inside each kind of quoting, all strings to length 3 (quick) / 4 (thorough) over a 10-symbol alphabet with both blanks, NUL and a non-ASCII byte, all strings over the six tokenizer classes to length 6 (quick) / 8 (thorough) for Split, every Unicode white-space code point as UTF-8, scanner sessions under eleven reader fragmentations (fixed and random chunks, a last chunk delivered together with io.EOF, empty reads) with Rest after every number of Next calls under every fragmentation, Err/Reset/Scanner.Split/Each sessions, random long inputs, inputs and single tokens longer than bufio's buffer. Both: scale streams (scale.go) -- lengths, run lengths, element counts and reader chunk sizes 2^k-1, 2^k, 2^k+1 for k = 6..13 and beyond 2*4096, smallest first; C15: plain filler plus ONE special character class (each of the 22 bytes Quote protects, alone or with a single quote) at the end, start, around the leading power-of-two block, everywhere, sparse, alternating, through Quote, Join, Split(Join) and hold cases, lists of 2^k short elements; C16: 34 kinds of runs (bare / single- / double-quoted text, quoted blanks, escape runs, quotes and escapes opening exactly at the boundary, unterminated runs, continuation runs, separator runs of one class, many short tokens) through Split and through scanner sessions (Rest right after and right before the long token, full scan with Err, Scanner.Split, Each) under chunk sizes tied to the run length with the e and z flags. Round 4 (round4.go): K lines = histories of Quote / Join / Split(Join) / Split calls in ONE process with every result read after the last call -- exhaustive two-call histories over small near-equal (C15) or malformed (C16: all strings to length 2 over the six classes) strings, the equal-length collision pairs of corpus/common/hash-collisions.tsv (FNV-1a, FNV-1, CRC-32, 31-polynomial, djb2, Adler-32) quoted, joined and split one right after the other in both orders, with a third string in between, bare and with a common suffix that makes them need quotation, random histories over near-equal strings (one byte changed, two swapped, reversed, one more or less), a 300..4097-byte (thorough 8193) call before and between ordinary ones; every length 1..300 (thorough 600): C15 filler plus one special character of each of the 22 classes (last and one rotating position, with a single quote), element counts and joined lengths; C16 a token holding exactly L bytes (bare, double-quoted, single-quoted, half bare and half quoted) when each of 44 kinds of event arrives (the two-byte append after a backslash inside double quotes, escapes, continuations, quotes opening or closing, separators, end of input), with more bytes of the same token after it, through Split and a session under a rotating fragmentation, and seven of the events at every source offset 0..300; Each whose callback panics (recovered) at the first / second token, the scanner used on; Round 5 (round5.go, C16): M lines = ONE scanner on two inputs - NewScanner over the first, a session, Reset onto the second, Text / Complete / Err right after the Reset, a session from the whole op set - for every pair of 17 reader kinds (strings.Reader, bytes.Reader, bytes.Buffer, bufio.Reader of three sizes, a one-byte ByteReader, a reader returning data with io.EOF, MultiReader, LimitReader, seven fragmentations) at 42 points of a first session (before any Next, between tokens, past the end, after Rest, after Scanner.Split, after Each to the end / stopped / panicked, inside an unterminated quotation), after NewScanner(nil), after a reader that fails after k bytes, with inputs longer than one and two bufio buffers, and random combinations: the second session must be that of a fresh scanner on the second input; inside every Each callback Text() must be the token passed to it; 2-, 3- and 4-byte UTF-8 sequences, truncated, overlong and surrogate forms at the ends and in the middle of filler. Round 6 (round6.go, C16): Rest more than once -- session ops p<k> (Rest, only the first k bytes of its reader are read), q<k> (k more bytes from that reader), t (Text and Complete with no call in between): after every number of Next calls on ten inputs a first Rest read for k = 0..len+1 bytes, then nothing / Next / Err / Text / Scanner.Split / Each / more bytes / another partial Rest, then Rest again (exactly the bytes still unread), then Next / Err / Text / a third Rest; all sessions of up to three (thorough four) ops over the enlarged op set; the same before and after a Reset onto a second input for every pair of reader kinds, after NewScanner(nil) and after a failing reader; prefixes ending next to the 4096- and 8192-byte marks of inputs longer than one and two bufio buffers; random sessions. A case is non-trivial when its input contains a quoting character, separator or metacharacter; distinct = distinct input lines.",
 		exec, func(g *tr.G) {
 			switch g.Prop {
 			case "C15":
@@ -707,6 +738,9 @@ func main() {
 						g.Emit("N "+tr.Pick(g.R, allFrags)+" "+hx(s+" b")+" "+ops+"ne", special(s), "ops")
 					})
 				})
+				// round 6 (round6.go): Rest more than once -- only part of the first reader is read, then
+				// Next / Err / Text, then Rest again for exactly the bytes still unread
+				genRestTwice(g)
 				for i := 0; i < g.Scale(4000, 80000); i++ {
 					s := randString(g.R, classAlpha, 24)
 					nops := 1 + g.R.Intn(8)
